@@ -349,3 +349,9 @@ def check(cx):
     dec_refs.check_committed_before(cx, r8, p)
     dec_refs.check_valid_for_snapshot(cx, r8, p)
     dec_refs.check_is_transaction_aborted(cx, r8, p)
+
+    # ---- C04.9 (construct shared with C03.4) ----------------------------------------------------------------------------
+    from . import c03
+    cx.include(c03, {"C03.4"}, "C04.9", "shared with C03.4: every version stamp (xmin of a new version, xmax of a delete) is the id of "
+               "the executing transaction; a stamp taken from another accessor (xmin, a constant) attributes the write to another "
+               "transaction and every snapshot judges it by the wrong fate", floor=14)
